@@ -46,7 +46,7 @@ impl<T: RefCnt> HybridProtection<T> {
         // Relaxed is good enough here, see the Acquire below
         let ptr = storage.load(Relaxed);
         // Try to get a debt slot. If not possible, fail.
-        let debt = node.new_fast(ptr as usize)?;
+        let debt = node.new_fast(Debt::token::<T>(ptr))?;
 
         // Acquire to get the data.
         //
@@ -91,7 +91,7 @@ impl<T: RefCnt> HybridProtection<T> {
 
         // Try to replace the debt with our candidate. If it works, we get the debt slot to use. If
         // not, we get a replacement value, already protected and a debt to take care of.
-        match node.confirm_helping(gen, candidate as usize) {
+        match node.confirm_helping(gen, Debt::token::<T>(candidate)) {
             Ok(debt) => {
                 // The fast path -> we got the debt confirmed alright.
                 Self::from_inner(unsafe { Self::new(candidate, Some(debt)).into_inner() })
